@@ -288,3 +288,10 @@ def run(pid: str, log):
     for n in res["notes"]:
         log(n)
     return res
+
+
+# C09 / C10: the scalar arithmetic of SRRConfig / SRRLaser.extent / Laser.get (typed translator in structural_c10.py)
+from harness import structural_c10  # noqa: E402
+
+for _pid, _ties in structural_c10.TIES.items():
+    TIES.setdefault(_pid, []).extend(_ties)
